@@ -82,7 +82,8 @@ def step (st : Option Db) (ws : List String) : Option Db × String × String × 
     match parseStmt a with
     | some a =>
       let want := a.toStmt.seq d
-      let got := if Generated.compactRunsReadUnderLock then want else d
+      -- stale list: the run of `a` (property writes) is dropped; a node it created stays in the node table
+      let got := if Generated.compactRunsReadUnderLock then want else { d with a := want.a }
       (some got, tok got ++ " | 0 0 1", tok want, "")
     | none => (st, "bad-op", "-", "")
   | ["stress", n, k], some d =>
